@@ -368,6 +368,18 @@ func (t *transitiveClosure) includeType(
 			if mode := t.elements[extendeeInfo.element]; mode == inclusionModeExcluded {
 				return fmt.Errorf("cannot include extension field %q as the extendee type %q is excluded", typeName, extendeeName)
 			}
+			// Check if the extension's own message, group or enum type is excluded.
+			switch field.GetType() {
+			case descriptorpb.FieldDescriptorProto_TYPE_ENUM,
+				descriptorpb.FieldDescriptorProto_TYPE_MESSAGE,
+				descriptorpb.FieldDescriptorProto_TYPE_GROUP:
+				fieldTypeName := protoreflect.FullName(strings.TrimPrefix(field.GetTypeName(), "."))
+				if fieldTypeInfo, ok := imageIndex.ByName[fieldTypeName]; ok {
+					if mode := t.elements[fieldTypeInfo.element]; mode == inclusionModeExcluded {
+						return fmt.Errorf("cannot include extension field %q as its type %q is excluded", typeName, fieldTypeName)
+					}
+				}
+			}
 		}
 		if err := t.addElement(descriptorInfo.element, "", false, imageIndex, options); err != nil {
 			return fmt.Errorf("inclusion of type %q: %w", typeName, err)
@@ -579,9 +591,8 @@ func (t *transitiveClosure) addElement(
 			t.elements[descriptor] = inclusionModeExcluded
 			return nil
 		}
-		if err := t.addElement(extendeeInfo.element, descriptorInfo.file.Path(), impliedByCustomOption, imageIndex, opts); err != nil {
-			return err
-		}
+		// Decide first whether the extension survives: an extension whose type is
+		// excluded must not pull its extendee into the closure.
 		isIncluded, err := t.addFieldType(typedDescriptor, descriptorInfo.file.Path(), imageIndex, opts)
 		if err != nil {
 			return err
@@ -589,6 +600,9 @@ func (t *transitiveClosure) addElement(
 		if !isIncluded {
 			t.elements[descriptor] = inclusionModeExcluded
 			return nil
+		}
+		if err := t.addElement(extendeeInfo.element, descriptorInfo.file.Path(), impliedByCustomOption, imageIndex, opts); err != nil {
+			return err
 		}
 
 	default:
